@@ -63,7 +63,7 @@ def compute_mu_h(levy_measure, grid: CTMCGrid, axis: np.array, origin: int) -> f
             mu_h += np.array(xi) * integral(mid_point_left, mid_point_right)
             mid_point_left = mid_point_right
         else:
-            mid_point_left = middle(axis[origin], axis[origin + 1])
+            mid_point_left = middle(axis[origin], axis[min(last, origin + 1)])
 
     return mu_h
 
